@@ -945,9 +945,11 @@ bool cli_key_path(const std::string &s, bytes &key_out)
   for (auto &a : av)
     argv.push_back(strdup(a.c_str()));
   argv.push_back(NULL);
-  u8_t *vals = get_v_opt((int)av.size(), argv.data());
-  for (auto *p : argv)
-    free(p);
+  // argv strings are never freed: a process' argv lives as long as the process, and getopt keeps a
+  // pointer into the last element between calls
+  char **keep = (char **)malloc(sizeof(char *) * argv.size());
+  memcpy(keep, argv.data(), sizeof(char *) * argv.size());
+  u8_t *vals = get_v_opt((int)av.size(), keep);
   if (!vals)
     return false;
   vpak_t *v = (vpak_t *)vals;
@@ -960,17 +962,55 @@ bool cli_key_path(const std::string &s, bytes &key_out)
 } // namespace wapi
 
 extern int wencry_cli_main(int argc, char *argv[]);
+static long g_fake_time = 0;
+// wencry seeds rand() with time(NULL) for generated keys and IV seeds; C15 compares a step inside a
+// history with the same step in a fresh process, so the clock (the one legitimate difference) is pinned
+extern "C" time_t time(time_t *t)
+{
+  time_t v;
+  if (g_fake_time)
+    v = (time_t)g_fake_time;
+  else
+  {
+    struct timespec ts;
+    clock_gettime(CLOCK_REALTIME, &ts);
+    v = ts.tv_sec;
+  }
+  if (t)
+    *t = v;
+  return v;
+}
 namespace wapi
 {
+void set_fake_time(long t) { g_fake_time = t; }
+void set_sizes(int chunk, int refill_units)
+{
+  PipeCfg pc;
+  pc.chunk = chunk;
+  set_chunk(pc);
+  set_refill(refill_units);
+}
+int cli_run(const std::vector<std::string> &av, const PipeCfg &pc, size_t nblocks, SchedOut *so)
+{
+  OpOut o;
+  int rc = -99;
+  PipeCfg p2 = pc;
+  p2.T = 4;
+  with_sched(p2, nblocks, o, [&] { rc = cli_main(av); });
+  if (so)
+    *so = o.sched;
+  return rc;
+}
 int cli_main(const std::vector<std::string> &av)
 {
   std::vector<char *> argv;
   for (auto &a : av)
     argv.push_back(strdup(a.c_str()));
   argv.push_back(NULL);
-  int r = wencry_cli_main((int)av.size(), argv.data());
-  for (auto *p : argv)
-    free(p);
+  // never freed: argv of a real process lives as long as the process (getopt points into it between calls)
+  char **keep = (char **)malloc(sizeof(char *) * argv.size());
+  memcpy(keep, argv.data(), sizeof(char *) * argv.size());
+  int r = wencry_cli_main((int)av.size(), keep);
   return r;
 }
 } // namespace wapi
